@@ -105,6 +105,11 @@ Theorem C15_defaults : forall e k bs v,
 Proof. exact decode_defaults. Qed.
 Print Assumptions C15_defaults.
 
+(* the executable well-formedness test used by the oracle implies the hypotheses of the theorems *)
+Theorem C15_wf_reflect : forall v, value_okb v = true -> value_ok v.
+Proof. exact value_okb_spec. Qed.
+Print Assumptions C15_wf_reflect.
+
 (* ---- oracle ------------------------------------------------------------------------------ *)
 Theorem C15_oracle_sound : forall c o, ok c o = true <-> Spec c o.
 Proof. exact ok_spec. Qed.
@@ -164,4 +169,11 @@ Proof. vm_compute. reflexivity. Qed.
 Example writer_witness_okb : writer_okb writer_witness = true. Proof. vm_compute. reflexivity. Qed.
 Example pmd_ex : decode_pmd BE (enc_pmd BE (Build_pmd [1;2;3;4;5;6;7;8;9;10;11;12] [0;0;0;1] [9;9;9]))
                  = Ok (Build_pmd [1;2;3;4;5;6;7;8;9;10;11;12] [0;0;0;1] [9;9;9]).
+Proof. vm_compute. reflexivity. Qed.
+Example topic_ex : topic_data :=
+  Build_topic_data (Some [1;2;3;4;5;6;7;8;9;10;11;12;0;0;1;2]) [116;111;112;105;99] [84]
+    (Build_qos (Some Persistent) None (Some (5, 0)) None None None None (Some (Reliable (0, 0))) None
+               (Some KeepAll) (Some (Build_resource_limits 1 2 3)) None).
+Example topic_ex_ok : topic_okb topic_ex = true. Proof. vm_compute. reflexivity. Qed.
+Example topic_ex_roundtrip : decode_topic BE (encode_topic BE topic_ex) = Ok topic_ex.
 Proof. vm_compute. reflexivity. Qed.
